@@ -80,7 +80,27 @@ MixedCell(r) == [name |-> S_TOP,
 Mixed == {Case(AL(k, <<MixedCell(r), SubCell, [Empty(S_A) EXCEPT !.refs =
                           <<Ref(S_CELL, "cell", TRUE, 1024, 0, <<1, 1>>, NoRep, PR0)>>]>>), k)
              : r \in RepSet, k \in {1, 4}}
-Cases == Singles \cup Mixed \cup {Case(AL(1, <<>>), 1)}
+\* ---- eighths of a database unit: vertices, origins AND repetition offsets all off the grid
+\* (residue 3 of 8 each; every sum has residue 3, 6 or 1, never the tie 4).  The re-loaded
+\* copies are the expanded originals rounded once: round(vertex + offset), which differs
+\* from round(vertex) + round(offset) for every copy but the first.
+Reps8 == {Rect(2, 2, <<803, 1603>>), Regular(2, 2, <<803, 803>>, <<-797, 1603>>),
+          Explicit(<< <<803, 11>>, <<-797, 1603>> >>), ExplicitX(<<803, -1597>>), ExplicitY(<<1603, 11>>)}
+Tri8 == << <<3, 3>>, <<803, 3>>, <<11, 563>> >>
+Spine8 == << <<3, 3>>, <<4003, 3>>, <<4003, 3003>> >>
+AL8(cells) == [AL(1, cells) EXCEPT !.name = S_LIB] @@ [qd |-> 8]
+Eighths == UNION {{Case(AL8(<<One("polys", Poly(1, 0, Tri8, r, PR0)), SubCell>>), 1),
+                   Case(AL8(<<One("labels", Label(10, 0, 0, FALSE, 1024, 0, <<3, -5>>, <<104, 105>>, r, PR0)), SubCell>>), 1),
+                   \* (a reference with a lattice repetition becomes an AREF, whose pitch is stored through
+                   \* two rounded corner points: with an off-grid pitch the interior copies are not at
+                   \* round(origin + offset), a limit of the record, so only the explicit kinds, which are
+                   \* written as one SREF per copy, are held to the rule here)
+                   Case(AL8(<<One("refs", Ref(S_CELL, "cell", FALSE, 1024, 0, <<-5, 11>>,
+                                               IF r.type \in {"rect", "regular"} THEN NoRep ELSE r, PR0)), SubCell>>), 1)}
+                  \cup {Case(AL8(<<SubCell, One("paths", Path(rb, TRUE, TRUE, <<El(1, 0, 41, 0, 4, <<21, -13>>)>>,
+                                                             Spine8, r, PR0))>>), 1) : rb \in BOOLEAN}
+                  : r \in Reps8}
+Cases == Singles \cup Mixed \cup Eighths \cup {Case(AL(1, <<>>), 1)}
 
 Init == case \in Cases
 Next == UNCHANGED case
